@@ -139,6 +139,14 @@ def main(argv=None) -> int:
         os.makedirs('evidence', exist_ok=True)
         with open(f'evidence/{pid}.json', 'w') as f:
             json.dump(ev, f, indent=1, sort_keys=True, default=str)
+    if os.environ.get('VERIF_COLLECT'):
+        agg = {}
+        for p_ in good:
+            for sig, (n, d) in p_.get('collected', {}).items():
+                a = agg.setdefault(sig, [0, d])
+                a[0] += n
+        for sig, (n, d) in sorted(agg.items()):
+            print(f'COLLECTED {n:6d} {sig}\n         {d[:300]}')
     for line in core.known_lines(pid, good):
         print(line)
     cov = ev['coverage']
